@@ -215,8 +215,10 @@ def rand_pair(rng, nmax=4, overlap=True):
         if rng.random() < 0.15:
             return B, A, alpha
         return A, B, alpha
-    elif c < 0.68:
+    elif c < 0.66:
         A, B = correlated_pair(rng)
+    elif c < 0.72:
+        return (*combo_pair(rng), ALPHA)
     elif c < 0.76:
         # leaf symbols present in one operand only
         alpha2 = pick_alpha(rng)
@@ -226,6 +228,44 @@ def rand_pair(rng, nmax=4, overlap=True):
     if rng.random() < 0.5:
         A, B = B, A
     return A, B, alpha
+
+
+def combo_pair(rng):
+    """A: k leaf symbols into one state, one rule of rank 2 (or 3) over that state into a final state.  B keeps the leaves apart
+    and sends every COMBINATION of its leaf states through the wide symbol to a final state, to a useful non-final state or
+    nowhere – so that while the upward algorithm enumerates the combinations of child macro-states of one rule, accepting,
+    non-accepting and empty posts follow each other in an order given by hash / registration order.  State and symbol
+    numbers are shuffled to vary that order."""
+    k = rng.choice([2, 2, 3])
+    leaves = rng.sample([0, 1, 2], k)
+    wide, rk = rng.choice([(4, 2), (5, 2), (6, 3)])
+    una = rng.choice([3, 7])
+    q, p = 0, 1
+    A = TA([(a, (), q) for a in leaves] + [(wide, tuple([q] * rk), p)], [p])
+    if rng.random() < 0.3:
+        A.rules.append((una, (p,), p))
+    r = list(range(k))                       # leaf i -> r[i]
+    s_fin, s_non = k, k + 1
+    rules = [(a, (), r[i]) for i, a in enumerate(leaves)]
+    import itertools
+    used_non = False
+    for comb in itertools.product(range(k), repeat=rk):
+        c = rng.random()
+        if c < 0.62:
+            rules.append((wide, tuple(r[i] for i in comb), s_fin))
+        elif c < 0.92:
+            rules.append((wide, tuple(r[i] for i in comb), s_non)); used_non = True
+    if used_non:
+        rules.append((una, (s_non,), s_fin))  # keeps the non-final target useful (the operands are trimmed first)
+    if rng.random() < 0.3:
+        rules.append((una, (s_fin,), s_fin))
+    B = TA(rules, [s_fin])
+    rng.shuffle(B.rules)
+    rng.shuffle(A.rules)
+    if rng.random() < 0.7:
+        st = B.states()
+        B = B.renamed(dict(zip(st, rng.sample(range(0, 12), len(st)))))
+    return A, B
 
 
 def make_disjoint(rng, A, B):
